@@ -33,6 +33,8 @@ type schedReader struct {
 	failWith    int // bytes delivered together with the error
 	reads       int
 	maxChunk    int
+	// faultReturned: the injected error has been returned to the caller at least once
+	faultReturned bool
 }
 
 var errInjected = errors.New("injected fault")
@@ -57,6 +59,7 @@ func (r *schedReader) Read(p []byte) (int, error) {
 			n := copy(p, r.doc[r.pos:r.failAt])
 			r.pos += n
 			if r.pos >= r.failAt {
+				r.faultReturned = true
 				return n, errInjected
 			}
 			return n, nil
